@@ -598,8 +598,8 @@ theorem setSlice_fmt (ek : Kind) (l : List Sc) (h : ∀ s ∈ l, ScDom s ∧ s.k
     rw [hk] at hset
     simp only [List.filterMap_cons, hb, setSlice, hset, ih (fun x hx => h x (by simp [hx])), Outcome.map]
 
-theorem setArrayLoop_fmt (ek : Kind) (l slots : List Sc) (hlen : slots.length = l.length)
-    (h : ∀ s ∈ l, ScDom s ∧ s.kind = ek) : setArrayLoop ek (l.filterMap formatProper) slots = .ok l := by
+theorem setArray_fmt (ek : Kind) (l slots : List Sc) (hlen : slots.length = l.length)
+    (h : ∀ s ∈ l, ScDom s ∧ s.kind = ek) : setArray ek (l.filterMap formatProper) slots = .ok l := by
   induction l generalizing slots with
   | nil =>
     cases slots with
@@ -613,22 +613,7 @@ theorem setArrayLoop_fmt (ek : Kind) (l slots : List Sc) (hlen : slots.length = 
       obtain ⟨b, hb, hset⟩ := setScalar_fmt s hd
       rw [hk] at hset
       simp only [List.length_cons, Nat.add_right_cancel_iff] at hlen
-      simp only [List.filterMap_cons, hb, setArrayLoop, hset, ih cs hlen (fun x hx => h x (by simp [hx])), Outcome.map]
-
-/-- every element of the domain is formatted: the encoder emits exactly one value per element. -/
-theorem filterMap_fmt_length (l : List Sc) (h : ∀ s ∈ l, ScDom s) :
-    (l.filterMap formatProper).length = l.length := by
-  induction l with
-  | nil => rfl
-  | cons s r ih =>
-    obtain ⟨b, hb, _⟩ := setScalar_fmt s (h s (by simp))
-    simp [hb, ih (fun x hx => h x (by simp [hx]))]
-
-theorem setArray_fmt (ek : Kind) (l slots : List Sc) (hlen : slots.length = l.length)
-    (h : ∀ s ∈ l, ScDom s ∧ s.kind = ek) : setArray ek (l.filterMap formatProper) slots = .ok l := by
-  unfold setArray
-  rw [filterMap_fmt_length l (fun s hs => (h s hs).1), hlen]
-  simp [setArrayLoop_fmt ek l slots hlen h]
+      simp only [List.filterMap_cons, hb, setArray, hset, ih cs hlen (fun x hx => h x (by simp [hx])), Outcome.map]
 
 theorem filterMap_fmt_nil (l : List Sc) (h : ∀ s ∈ l, ScDom s) (he : l.filterMap formatProper = []) : l = [] := by
   cases l with
@@ -792,16 +777,13 @@ theorem form_roundtrip (v : Val) (h : InFormDomain v) :
   have hd := dec_rt v m hok (fun kv hkv => by rw [hget, A1 kv hkv]; rfl)
   simp [formDecode, hm, isStruct_zero, hs, hd, Outcome.map]
 
-/-! ### form codec: decoding never panics -/
+/-! ### form codec: when decoding panics -/
 
 theorem setScalar_ne_panic (k : Kind) (x : Bytes) (cur : Sc) : setScalar k x cur ≠ .panic := by
   unfold setScalar
   cases k <;> simp only <;> (try split) <;> simp
 
 theorem map_eq_panic {α β : Type} (f : α → β) (o : Outcome α) : o.map f = .panic ↔ o = .panic := by
-  cases o <;> simp [Outcome.map]
-
-theorem map_eq_err {α β : Type} (f : α → β) (o : Outcome α) : o.map f = .err ↔ o = .err := by
   cases o <;> simp [Outcome.map]
 
 theorem setSlice_ne_panic (ek : Kind) (vals : List Bytes) : setSlice ek vals ≠ .panic := by
@@ -814,20 +796,20 @@ theorem setSlice_ne_panic (ek : Kind) (vals : List Bytes) : setSlice ek vals ≠
     | err => simp
     | panic => exact absurd h (setScalar_ne_panic _ _ _)
 
-/-- exactly when the unguarded loop of the array arm would panic (`structField.Index(i)` with
-    `i ≥ Len()`): more values than slots and every value that still has a slot is accepted by
-    `setWithProperType` (an earlier bad value returns its error first). -/
-theorem setArrayLoop_panic_iff (ek : Kind) (vals : List Bytes) : ∀ slots : List Sc,
-    setArrayLoop ek vals slots = .panic ↔
+/-- **Exactly when the array arm panics**: there are more values than slots and every value that
+    still has a slot is accepted by `setWithProperType` (an earlier bad value returns its error
+    first). -/
+theorem setArray_panic_iff (ek : Kind) (vals : List Bytes) : ∀ slots : List Sc,
+    setArray ek vals slots = .panic ↔
       (slots.length < vals.length ∧ ∀ p ∈ vals.zip slots, ∃ s', setScalar ek p.1 p.2 = .ok s') := by
   induction vals with
-  | nil => intro slots; simp [setArrayLoop]
+  | nil => intro slots; simp [setArray]
   | cons x xs ih =>
     intro slots
     cases slots with
-    | nil => simp [setArrayLoop]
+    | nil => simp [setArray]
     | cons s ss =>
-      simp only [setArrayLoop, List.length_cons, List.zip_cons_cons, List.mem_cons, forall_eq_or_imp]
+      simp only [setArray, List.length_cons, List.zip_cons_cons, List.mem_cons, forall_eq_or_imp]
       cases h : setScalar ek x s with
       | ok s' =>
         simp only [map_eq_panic, ih ss]
@@ -837,45 +819,8 @@ theorem setArrayLoop_panic_iff (ek : Kind) (vals : List Bytes) : ∀ slots : Lis
       | err => simp
       | panic => exact absurd h (setScalar_ne_panic _ _ _)
 
-/-- the loop returns an error exactly when some value that has a slot is refused. -/
-theorem setArrayLoop_err_iff (ek : Kind) (vals : List Bytes) : ∀ slots : List Sc,
-    setArrayLoop ek vals slots = .err ↔ ∃ p ∈ vals.zip slots, setScalar ek p.1 p.2 = .err := by
-  induction vals with
-  | nil => intro slots; simp [setArrayLoop]
-  | cons x xs ih =>
-    intro slots
-    cases slots with
-    | nil => simp [setArrayLoop]
-    | cons s ss =>
-      simp only [setArrayLoop, List.zip_cons_cons, List.mem_cons, exists_eq_or_imp]
-      cases h : setScalar ek x s with
-      | ok s' => simp only [map_eq_err, ih ss]; simp
-      | err => simp
-      | panic => exact absurd h (setScalar_ne_panic _ _ _)
-
-/-- **the guarded array arm never panics**: the bound check returns before the loop can reach an
-    index without a slot. -/
-theorem setArray_ne_panic (ek : Kind) (vals : List Bytes) (slots : List Sc) :
-    setArray ek vals slots ≠ .panic := by
-  unfold setArray
-  split
-  · simp
-  · intro h
-    have := ((setArrayLoop_panic_iff ek vals slots).mp h).1
-    omega
-
-/-- **exactly when the array arm returns an error**: more values than slots, or some value that
-    has a slot is refused by `setWithProperType`. -/
-theorem setArray_err_iff (ek : Kind) (vals : List Bytes) (slots : List Sc) :
-    setArray ek vals slots = .err ↔
-      (slots.length < vals.length ∨ ∃ p ∈ vals.zip slots, setScalar ek p.1 p.2 = .err) := by
-  unfold setArray
-  split
-  · rename_i h; simp [h]
-  · rename_i h; rw [setArrayLoop_err_iff]; simp [h]
-
-theorem decField_ne_panic (x : Val) (c : Bytes) (cs : List Bytes) : decField x (c :: cs) ≠ .panic := by
-  intro h
+theorem decField_panic (x : Val) (c : Bytes) (cs : List Bytes) (h : decField x (c :: cs) = .panic) :
+    ∃ ek slots, x = .array ek slots ∧ setArray ek (c :: cs) slots = .panic := by
   cases x with
   | sc s =>
     cases s <;> simp only [decField, map_eq_panic] at h
@@ -887,7 +832,7 @@ theorem decField_ne_panic (x : Val) (c : Bytes) (cs : List Bytes) : decField x (
     exact absurd h (setSlice_ne_panic _ _)
   | array ek slots =>
     simp only [decField, map_eq_panic] at h
-    exact absurd h (setArray_ne_panic _ _ _)
+    exact ⟨ek, slots, rfl, h⟩
   | snil => simp [decField] at h
   | scons => simp [decField] at h
 
@@ -919,9 +864,17 @@ theorem parseSegs_valsNE (segs : List Bytes) : ∀ m m', ValsNE m → parseSegs 
 theorem parseQuery_valsNE (data : Bytes) (m : Form) (h : parseQuery data = some m) : ValsNE m :=
   parseSegs_valsNE _ [] m (by intro k vs hk; simp [fget] at hk) h
 
-/-- `mapFormToStruct` never panics on a map whose value lists are non-empty (every map that
-    `url.ParseQuery` returns). -/
-theorem decStruct_ne_panic (v : Val) : ∀ form, ValsNE form → decStruct v form ≠ .panic := by
+/-- the fields `mapFormToStruct` reaches: exported, after flattening. -/
+def sleaves : Val → List (Bytes × Val)
+  | .scons name tag st v rest =>
+    if !st then sleaves rest
+    else if tag.isEmpty && v.isStruct then sleaves v ++ sleaves rest
+    else (fieldKey name tag, v) :: sleaves rest
+  | _ => []
+
+theorem decStruct_panic (v : Val) : ∀ form, ValsNE form → decStruct v form = .panic →
+    ∃ k ek slots vals, (k, Val.array ek slots) ∈ sleaves v ∧ fget form k = some vals ∧
+      setArray ek vals slots = .panic := by
   induction v with
   | scons name tag st v rest ihv ihr =>
     intro form hne h
@@ -931,37 +884,52 @@ theorem decStruct_ne_panic (v : Val) : ∀ form, ValsNE form → decStruct v for
       simp only [Bool.not_true, Bool.false_eq_true, if_false] at h
       by_cases hc : (tag.isEmpty && v.isStruct) = true
       · simp only [hc, if_true] at h
+        have hs : sleaves (.scons name tag true v rest) = sleaves v ++ sleaves rest := by simp [sleaves, hc]
+        rw [hs]
         cases hd : decStruct v form with
         | ok v' =>
           simp only [hd, map_eq_panic] at h
-          exact ihr form hne h
+          obtain ⟨k, ek, sl, vals, hm, hg, hp⟩ := ihr form hne h
+          exact ⟨k, ek, sl, vals, List.mem_append_right _ hm, hg, hp⟩
         | err => simp [hd] at h
-        | panic => exact ihv form hne hd
+        | panic =>
+          obtain ⟨k, ek, sl, vals, hm, hg, hp⟩ := ihv form hne hd
+          exact ⟨k, ek, sl, vals, List.mem_append_left _ hm, hg, hp⟩
       · simp only [hc, Bool.false_eq_true, if_false] at h
+        have hs : sleaves (.scons name tag true v rest) = (fieldKey name tag, v) :: sleaves rest := by
+          simp [sleaves, hc]
+        rw [hs]
         cases hg : fget form (fieldKey name tag) with
         | none =>
           simp only [hg, map_eq_panic] at h
-          exact ihr form hne h
+          obtain ⟨k, ek, sl, vals, hm, hg', hp⟩ := ihr form hne h
+          exact ⟨k, ek, sl, vals, List.mem_cons_of_mem _ hm, hg', hp⟩
         | some vals =>
           simp only [hg] at h
           cases hd : decField v vals with
           | ok v' =>
             simp only [hd, map_eq_panic] at h
-            exact ihr form hne h
+            obtain ⟨k, ek, sl, vals', hm, hg', hp⟩ := ihr form hne h
+            exact ⟨k, ek, sl, vals', List.mem_cons_of_mem _ hm, hg', hp⟩
           | err => simp [hd] at h
           | panic =>
             cases vals with
             | nil => exact absurd rfl (hne _ _ hg)
-            | cons c cs => exact decField_ne_panic v c cs hd
+            | cons c cs =>
+              obtain ⟨ek, sl, hx, hp⟩ := decField_panic v c cs hd
+              subst hx
+              exact ⟨_, ek, sl, c :: cs, by simp, hg, hp⟩
     · have hst' : st = false := by simpa using hst
       subst hst'
       simp only [Bool.not_false, if_true, map_eq_panic] at h
+      have hs : sleaves (.scons name tag false v rest) = sleaves rest := by simp [sleaves]
+      rw [hs]
       exact ihr form hne h
   | _ => intro form _ h; simp [decStruct] at h
 
-/-- `FormCodec.Unmarshal` never panics, whatever the bytes and whatever the destination. -/
-theorem formDecode_ne_panic (data : Bytes) (d : FDest) : formDecode data d ≠ .panic := by
-  intro h
+theorem formDecode_panic (data : Bytes) (d : FDest) (h : formDecode data d = .panic) :
+    ∃ cur form k ek slots vals, d = .ptr cur ∧ parseQuery data = some form ∧
+      (k, Val.array ek slots) ∈ sleaves cur ∧ fget form k = some vals ∧ setArray ek vals slots = .panic := by
   unfold formDecode at h
   cases hp : parseQuery data with
   | none => simp [hp] at h
@@ -974,7 +942,8 @@ theorem formDecode_ne_panic (data : Bytes) (d : FDest) : formDecode data d ≠ .
       simp only at h
       split at h
       · rw [map_eq_panic] at h
-        exact decStruct_ne_panic cur form (parseQuery_valsNE data form hp) h
+        obtain ⟨k, ek, sl, vals, hm, hg, hpn⟩ := decStruct_panic cur form (parseQuery_valsNE data form hp) h
+        exact ⟨cur, form, k, ek, sl, vals, rfl, rfl, hm, hg, hpn⟩
       · cases h
 
 /-! ### form codec: a decode stays inside the destination's type -/
@@ -1001,16 +970,16 @@ theorem setScalar_kind (k : Kind) (x : Bytes) (cur s' : Sc) (hk : cur.kind = k)
   · cases h
   · cases h
 
-theorem setArrayLoop_length (ek : Kind) (vals : List Bytes) : ∀ slots r, setArrayLoop ek vals slots = .ok r →
+theorem setArray_length (ek : Kind) (vals : List Bytes) : ∀ slots r, setArray ek vals slots = .ok r →
     r.length = slots.length := by
   induction vals with
-  | nil => intro slots r h; simp only [setArrayLoop, Outcome.ok.injEq] at h; rw [h]
+  | nil => intro slots r h; simp only [setArray, Outcome.ok.injEq] at h; rw [h]
   | cons x xs ih =>
     intro slots r h
     cases slots with
-    | nil => simp [setArrayLoop] at h
+    | nil => simp [setArray] at h
     | cons s ss =>
-      simp only [setArrayLoop] at h
+      simp only [setArray] at h
       cases hs : setScalar ek x s with
       | ok s' =>
         simp only [hs] at h
@@ -1019,13 +988,6 @@ theorem setArrayLoop_length (ek : Kind) (vals : List Bytes) : ∀ slots r, setAr
         simp [ih ss a ha]
       | err => simp [hs] at h
       | panic => simp [hs] at h
-
-theorem setArray_length (ek : Kind) (vals : List Bytes) (slots r : List Sc)
-    (h : setArray ek vals slots = .ok r) : r.length = slots.length := by
-  unfold setArray at h
-  split at h
-  · cases h
-  · exact setArrayLoop_length ek vals slots r h
 
 theorem decField_sameTy (x x' : Val) (vals : List Bytes) (h : decField x vals = .ok x') :
     x'.sameTy x = true := by
